@@ -6,6 +6,7 @@ import (
 	"context"
 	"fmt"
 	"math/rand/v2"
+	"sync"
 	"time"
 
 	"github.com/google/gce-tcb-verifier/gcetcbendorsement"
@@ -433,7 +434,82 @@ func run(c *core.Ctx) {
 		}
 		c.End(i)
 	}
-	for _, e := range []string{"verify.SNP", "verify.EndorsementProto+SNP", "SNPValidateFunc", "SevValidate", "TdxValidate", "verify.Endorsement+digest"} {
+	// the same clause while several validations are in flight on ONE validator: whatever is accepted must be listed
+	// for its own call (the re-entrancy of the validator itself is C09's; here only the membership verdict is judged)
+	nconc := c.N(24, 200)
+	for k := 0; k < nconc; k++ {
+		i := n + k
+		if !c.Mine(i) {
+			continue
+		}
+		r := c.Rand(i)
+		t := genTable(r, pki.Signer, nb)
+		g := t.golden
+		if g.SevSnp == nil {
+			continue
+		}
+		var good [][]byte
+		for _, v := range g.SevSnp.Measurements {
+			if len(v) == 48 {
+				good = append(good, v)
+			}
+		}
+		if len(good) == 0 {
+			continue
+		}
+		all := listedSNP(g, 0)
+		gname := fmt.Sprintf("concurrent#%d table n=%d", k, len(g.SevSnp.Measurements))
+		c.Begin(i, gname, "SNPValidateFunc/concurrent", nil)
+		f := verify.SNPValidateFunc(&verify.Options{RootsOfTrust: roots, Now: now})
+		ngor := 4 + r.IntN(9)
+		var wg sync.WaitGroup
+		var mu sync.Mutex
+		badAccepted, goodAccepted, calls := 0, 0, 0
+		var first string
+		start := make(chan struct{})
+		for gi := 0; gi < ngor; gi++ {
+			seedA, seedB := r.Uint64(), r.Uint64()
+			wg.Add(1)
+			go func(gi int) {
+				defer wg.Done()
+				rr := rand.New(rand.NewPCG(seedA, seedB))
+				<-start
+				for j := 0; j < 120; j++ {
+					var m []byte
+					listed := gi%2 == 0
+					if listed {
+						m = good[rr.IntN(len(good))]
+					} else {
+						m = rbytes(rr, 48)
+					}
+					err := f(&spb.Attestation{Report: &spb.Report{Measurement: m}}, t.raw)
+					mu.Lock()
+					calls++
+					if err == nil && !member(all, m) {
+						badAccepted++
+						if first == "" {
+							first = fmt.Sprintf("goroutine %d call %d: measurement %x accepted, listed %x", gi, j, m, all)
+						}
+					} else if err == nil {
+						goodAccepted++
+					}
+					mu.Unlock()
+				}
+			}(gi)
+		}
+		close(start)
+		wg.Wait()
+		c.Eval(calls)
+		if badAccepted > 0 {
+			c.Violate(core.Violation{Kind: "oracle", Entry: "SNPValidateFunc/concurrent", Site: "accepted-unendorsed-measurement", Gen: gname, Case: i,
+				Detail: fmt.Sprintf("%d of %d concurrent calls accepted a measurement the endorsement does not list; first: %s", badAccepted, calls, first)})
+		}
+		accepts["SNPValidateFunc/concurrent"] += goodAccepted
+		rejects["SNPValidateFunc/concurrent"] += calls - goodAccepted - badAccepted
+		c.Cell("concurrent|goroutines=%d|bad-accepted=%v", ngor, badAccepted > 0)
+		c.End(i)
+	}
+	for _, e := range []string{"verify.SNP", "verify.EndorsementProto+SNP", "SNPValidateFunc", "SevValidate", "TdxValidate", "verify.Endorsement+digest", "SNPValidateFunc/concurrent"} {
 		c.Count("accept-listed/"+e, accepts[e])
 		c.Count("reject-unlisted/"+e, rejects[e])
 		c.Floor("accept-listed/"+e, accepts[e] > 0)
